@@ -213,6 +213,9 @@ def run(ctx):
     check_purity(ctx)
     from . import common
     common.check_shared_class_state(ctx, [('models', 'Models'), ('fit', 'Fitter'), ('fit_info', 'FitInfo'), ('source.source', 'Source')])
+    from . import c01, c02
+    c01.check_fit_2d(ctx)        # multiplying the fluxes by c shifts the scale and nothing else: the residuals the kernels are given are log flux - log model flux for every flag
+    c02.check_fit_3d(ctx)
 
 
 MO = 'sedfitter/models.py'
